@@ -102,16 +102,41 @@ pub fn examples() -> Vec<Example> {
     v
 }
 
+/// CPU time (user + system, all threads) consumed so far by the process `pid`, in seconds (`/proc/<pid>/stat`, 100 ticks/s)
+fn cpu_seconds(pid: u32) -> Option<f64> {
+    let s = std::fs::read_to_string(format!("/proc/{}/stat", pid)).ok()?;
+    let rest = &s[s.rfind(')')? + 1..];
+    let f: Vec<&str> = rest.split_whitespace().collect();
+    let (ut, st): (f64, f64) = (f.get(11)?.parse().ok()?, f.get(12)?.parse().ok()?);
+    Some((ut + st) / 100.0)
+}
+/// Runs an example binary under a watchdog that does not depend on how loaded the machine is: the run is declared hung
+/// ("timeout") when, past `timeout_s` seconds of wall time, it has either burnt `timeout_s` seconds of CPU (an endless
+/// computation) or made no CPU progress at all during the last 20 seconds (a deadlock: the process sleeps); a process that
+/// is merely starved of CPU by other jobs keeps advancing slowly and is given up to 15 minutes.
 fn run_bin(bin: &str, args: &[String], timeout_s: u64) -> Result<String, String> {
     let mut child = Command::new(bin).args(args).stdout(Stdio::piped()).stderr(Stdio::null()).spawn().map_err(|e| format!("spawn {}", e))?;
+    let pid = child.id();
     let t0 = std::time::Instant::now();
+    let mut last_probe = 0u64; let mut cpu_then = 0.0f64; let mut idle_since: Option<u64> = None;
     loop {
         match child.try_wait() {
             Ok(Some(st)) => {
                 let mut s = String::new(); child.stdout.take().unwrap().read_to_string(&mut s).ok();
                 return if st.success() { Ok(s) } else { Err(format!("crash {}", st.code().map(|c| c.to_string()).unwrap_or("signal".into()))) };
             }
-            Ok(None) => { if t0.elapsed().as_secs() > timeout_s { let _ = child.kill(); let _ = child.wait(); return Err("timeout".into()); } std::thread::sleep(std::time::Duration::from_millis(2)); }
+            Ok(None) => {
+                let wall = t0.elapsed().as_secs();
+                if wall > last_probe {
+                    last_probe = wall;
+                    let cpu = cpu_seconds(pid).unwrap_or(0.0);
+                    if cpu > cpu_then + 0.005 { idle_since = None; } else if idle_since.is_none() { idle_since = Some(wall); }
+                    cpu_then = cpu;
+                    let stalled = idle_since.map_or(false, |t| wall - t >= 20);
+                    if wall > timeout_s && (cpu >= timeout_s as f64 || stalled || wall > 900) { let _ = child.kill(); let _ = child.wait(); return Err("timeout".into()); }
+                }
+                std::thread::sleep(std::time::Duration::from_millis(2));
+            }
             Err(e) => return Err(format!("wait {}", e)),
         }
     }
